@@ -328,6 +328,7 @@ def default_profile():
         times=(1, 3),
         require_named=False,
         p_interleaved_fasta=0.0,
+        rename_template=None,  # (single-end template, paired template) forced onto every case
     )
 
 
@@ -437,12 +438,15 @@ def gen_case(rng, profile=None):
         if rng.random() < 0.12:
             opts.append(["--length-tag", "length="])
         if rng.random() < 0.08:
-            opts.append(["--strip-suffix", rng.choice(["33", "bar", "d"])])
+            opts.append(["--strip-suffix", rng.choice(["=33", "bar", "d"])])  # never the digits of the id
         if fastq and rng.random() < 0.08:
             opts.append(["--zero-cap"])
     opts = [o for o in opts if o]
     rename = False
-    if rng.random() < P["p_rename"]:
+    if P.get("rename_template"):
+        rename = True
+        opts.append(["--rename", P["rename_template"][1 if paired else 0]])
+    elif rng.random() < P["p_rename"]:
         rename = True
         fields = ["{comment}", "{adapter_name}", "{match_sequence}", "{cut_prefix}", "{cut_suffix}"]
         if not paired:
